@@ -8,7 +8,8 @@
    lock release or marker cleanup), ECrash, and FRollback (the code's _rollback(delete_files=True)).
    Every fault SEQUENCE (not only single faults) is an event list. *)
 From Coq Require Import ZArith List Bool Arith.
-Require Import DS.Model.CommitBase DS.Gen.GenCommit DS.Model.Commit DS.Model.Fault DS.Proofs.CommitGenProofs DS.Proofs.CommitProofs DS.Proofs.FaultProofs.
+Require Import DS.Model.CommitBase DS.Model.TailBase DS.Gen.GenCommit DS.Gen.GenTail DS.Model.Commit DS.Model.Fault DS.Model.Tail
+               DS.Proofs.CommitGenProofs DS.Proofs.CommitProofs DS.Proofs.FaultProofs DS.Proofs.TailProofs.
 Import ListNotations.
 
 (* In every case each file referenced by any committed version (hence by any retained snapshot)
@@ -73,6 +74,70 @@ Proof.
 Qed.
 Print Assumptions C04_handlers_keep_after_possible_flip.
 
+(* ---------------------------------------------------------------------------------------------------------------
+   Post-flip infallibility.  The theorems above are about Model/Fault.v, whose rollback is GUARDED by "never flipped".
+   In the code nothing tests that: Transaction.commit's `except Exception` arm deletes the transaction's files whenever
+   an Exception reaches it.  Model/Tail.v removes the guard: `TEscape a e last` lets an exception of class e leave the
+   tail of a's commit call at any point after its flip and runs the arm the handler table names.  The tail of every
+   commit path (what still executes inside Transaction.commit's `try` once the version-hint write has landed: the rest
+   of MetadataManager.commit, create_snapshot, _commit_file_ops, _finish_committed, with every method they call inlined)
+   is regenerated from the source by translator/gen_tail.py -- under every table configuration at once, since the
+   regular expression keeps both sides of every `if`. *)
+
+(* For every tail r and handler table txon such that every class that can leave r is handled by the keep-files arm:
+   after ANY event list (failures before the flip, rollbacks, crashes, and exceptions of any class leaving the tail of
+   any commit at any point after its flip) every file referenced by a committed version is present. *)
+Theorem C04_post_flip_no_damage : forall r txon c m0 kind mr r0 next evs,
+  sound c -> (forall f, In f r0 -> (f < next)%nat) -> tail_safe txon r = true ->
+  let x := trun r txon c (finit m0 kind mr r0 next) evs in
+  forall v, In v (committed (fw x)) -> forall f, In f (refs x v) -> In f (f_present x).
+Proof. exact tail_no_damage. Qed.
+Print Assumptions C04_post_flip_no_damage.
+
+(* ... uncommitted files stay unreachable and the commit invariant (C01) survives *)
+Theorem C04_post_flip_unreachable : forall r txon c m0 kind mr r0 next evs,
+  sound c -> (forall f, In f r0 -> (f < next)%nat) -> tail_safe txon r = true ->
+  let x := trun r txon c (finit m0 kind mr r0 next) evs in
+  forall a, flipped (pcof x a) = false -> forall f, In f (f_written x a) ->
+  forall v, In v (committed (fw x)) -> ~ In f (refs x v).
+Proof. exact tail_unreachable. Qed.
+Print Assumptions C04_post_flip_unreachable.
+
+Theorem C04_post_flip_liveness : forall r txon c m0 kind mr r0 next evs,
+  sound c -> (forall f, In f r0 -> (f < next)%nat) -> tail_safe txon r = true ->
+  Inv c (fw (trun r txon c (finit m0 kind mr r0 next) evs)).
+Proof. exact tail_keeps_inv. Qed.
+Print Assumptions C04_post_flip_liveness.
+
+(* The REGENERATED tails (file-level commits, metadata-only commits) are safe for the REGENERATED handler table, and the
+   tail of SnapshotManager.delete_snapshot (no Transaction around it) has no call whose Exception is not swallowed. *)
+Theorem C04_tail_regenerated_safe :
+  tail_safe gen_tx_on gen_tail_file_ops = true /\ tail_safe gen_tx_on gen_tail_meta_only = true
+  /\ unguarded gen_tail_delete_snapshot = false.
+Proof. exact gen_tails_safe. Qed.
+Print Assumptions C04_tail_regenerated_safe.
+
+(* Hence, for the code as it is now: *)
+Theorem C04_commit_tail_no_damage : forall c m0 kind mr r0 next evs,
+  sound c -> (forall f, In f r0 -> (f < next)%nat) ->
+  (let x := trun gen_tail_file_ops gen_tx_on c (finit m0 kind mr r0 next) evs in
+   forall v, In v (committed (fw x)) -> forall f, In f (refs x v) -> In f (f_present x))
+  /\ (let x := trun gen_tail_meta_only gen_tx_on c (finit m0 kind mr r0 next) evs in
+   forall v, In v (committed (fw x)) -> forall f, In f (refs x v) -> In f (f_present x)).
+Proof. exact gen_tail_no_damage. Qed.
+Print Assumptions C04_commit_tail_no_damage.
+
+(* The proviso is necessary: if some class can leave the tail and its arm deletes (or nobody finishes the transaction),
+   the run "write a file, commit it up to the flip, let that class escape" leaves version 1 committed, referencing file 2,
+   and file 2 gone.  A fallible, unguarded storage call after the commit point -- under whatever configuration it
+   executes -- is exactly this. *)
+Theorem C04_unguarded_tail_damages : forall r txon e last,
+  tail_escapes r e = true -> (txon e last = TxRollbackDelete \/ txon e last = TxPropagate) ->
+  let x := trun r txon dm_cfg dm_init (map TF dm_prefix ++ [TEscape 0%nat e last]) in
+  In 1%nat (committed (fw x)) /\ In 2%nat (refs x 1%nat) /\ ~ In 2%nat (f_present x).
+Proof. exact unguarded_tail_damages. Qed.
+Print Assumptions C04_unguarded_tail_damages.
+
 (* Non-vacuity: (1) an interrupt AFTER the flip (during lock release): the commit is reflected,
    the transaction ends AbortedPost, its rollback is NOT enabled and its file stays; (2) an error
    before the flip: Aborted, rollback deletes its own file only, the base files stay. *)
@@ -89,4 +154,22 @@ Example C04_nonvacuous :
   /\ (let y := frun ex_cfg ex_init
       [FWrite 0; FProto (ev 0 (EBegin 0)); FProto (ev 0 (ELockTry true)); FProto (ev 0 EAbort); FRollback 0]%nat in
    a_pc (w_actors (fw y) 0%nat) = PDone Aborted /\ w_hist (fw y) = [] /\ f_present y = [0; 1]%nat /\ all_present y = true).
+Proof. vm_compute. repeat split. Qed.
+
+(* Non-vacuity of the tail machine with the regenerated tables: (1) KeyboardInterrupt during marker cleanup (after the
+   release): enabled, files kept; (2) a storage Exception cannot leave the regenerated tail: the event is not enabled;
+   (3) the regenerated tail accepts "release, three marker deletes" and refuses an `exists` after the release. *)
+Definition ex_commit := map TF
+  [FWrite 0; FProto (ev 0 (EBegin 0)); FWrite 0; FProto (ev 0 (ELockTry true)); FProto (ev 0 (EValidate 0 true));
+   FProto (ev 0 (EMetaW 100)); FProto (ev 0 (EFence true)); FProto (ev 0 (EFlip true)); FProto (ev 0 ERelease)]%nat.
+Example C04_tail_nonvacuous :
+  (match trun_strict gen_tail_file_ops gen_tx_on ex_cfg ex_init (ex_commit ++ [TEscape 0%nat XInterrupt false; TF (FRollback 0%nat)]) 0%nat with
+   | inr i => i = 10%nat | inl _ => False end)
+  /\ (let x := trun gen_tail_file_ops gen_tx_on ex_cfg ex_init (ex_commit ++ [TEscape 0%nat XInterrupt false]) in
+      f_present x = [3; 2; 0; 1]%nat /\ all_present x = true)
+  /\ (match trun_strict gen_tail_file_ops gen_tx_on ex_cfg ex_init (ex_commit ++ [TEscape 0%nat XOther false]) 0%nat with
+      | inr i => i = 9%nat | inl _ => False end)
+  /\ tail_accepts gen_tail_file_ops [TKRelease; TKDelete; TKDelete; TKDelete] = true
+  /\ tail_accepts gen_tail_file_ops [TKRelease; TKExists; TKDelete] = false
+  /\ tail_accepts_prefix gen_tail_file_ops [TKRelease; TKDelete] = true.
 Proof. vm_compute. repeat split. Qed.
